@@ -19,9 +19,6 @@ def blkWidths (fam : String) (n : Nat) : List Nat :=
   | "bb" => if n ≤ 32 then [8, 16, 32, 64] else [8, 16, 32]
   | _ => [8, 16, 32]
 
-private def optHex (w : Nat) (o : Option (List Nat)) : String :=
-  match o with | some l => toHex (toNat w l) | none => "trap"
-
 def bbCmpMask (w n : Nat) (a b : List Nat) : Nat :=
   let e := a == b
   let l := BB.lt w n a b
@@ -47,8 +44,8 @@ def blkInteger (w n : Nat) (op : String) (args : List String) : Except String St
     | "add" => return hexL (Integer.add w n (lim a) (lim b))
     | "sub" => return hexL (Integer.sub w n (lim a) (lim b))
     | "mul" => return hexL (Integer.mul w n (lim a) (lim b))
-    | "div" => return optHex w (Integer.divrem w n (lim a) (lim b) false)
-    | "rem" => return optHex w (Integer.divrem w n (lim a) (lim b) true)
+    | "div" => return hexL (Integer.divrem w n (lim a) (lim b) false)
+    | "rem" => return hexL (Integer.divrem w n (lim a) (lim b) true)
     | "and" => return hexL (Integer.band w n (lim a) (lim b))
     | "or" => return hexL (Integer.bor w n (lim a) (lim b))
     | "xor" => return hexL (Integer.bxor w n (lim a) (lim b))
@@ -84,8 +81,8 @@ def blkBB (w n : Nat) (op : String) (args : List String) : Except String String 
     | "add" => return hexL (BB.add w n (lim a) (lim b))
     | "sub" => return hexL (BB.sub w n (lim a) (lim b))
     | "mul" => return hexL (BB.mul w n (lim a) (lim b))
-    | "div" => return optHex w (BB.divrem w n (lim a) (lim b) false)
-    | "rem" => return optHex w (BB.divrem w n (lim a) (lim b) true)
+    | "div" => return hexL (BB.divrem w n (lim a) (lim b) false)
+    | "rem" => return hexL (BB.divrem w n (lim a) (lim b) true)
     | "cmp" => return toHex (bbCmpMask w n (lim a) (lim b))
     | "uradd" => return hexL (BB.uradd w n (lim a) (lim b))
     | "ursub" => return hexL (BB.ursub w n (lim a) (lim b))
@@ -115,28 +112,21 @@ def blkFixpnt (w n r : Nat) (sat : Bool) (op : String) (args : List String) : Ex
     | "add" => return hexL (Fixpnt.add w n sat (lim a) (lim b))
     | "sub" => return hexL (Fixpnt.sub w n sat (lim a) (lim b))
     | "mul" => return hexL (Fixpnt.mul w n r sat (lim a) (lim b))
-    | "div" => return optHex w (Fixpnt.div w n r sat (lim a) (lim b))
+    | "div" => return hexL (Fixpnt.div w n r sat (lim a) (lim b))
     | "cmp" => return toHex (Fixpnt.cmpMask w n (lim a) (lim b))
     | _ => throw s!"unknown op {op}"
   | [as] =>
     let some a := parseHex as | throw "a"
     match op with
-    | "neg" => return hexL (Fixpnt.neg w n (lim a))
+    | "neg" => return hexL (Fixpnt.neg w n sat (lim a))
     | "inc" => return hexL (Fixpnt.inc w n sat (lim a))
     | "dec" => return hexL (Fixpnt.dec w n sat (lim a))
     | _ => throw s!"unknown op {op}"
   | _ => throw "arity"
 
-/-- known-finding classes of C12 (decidable on the inputs) -/
-def blkClass (fam : String) (n : Nat) (op : String) (args : List String) : String :=
-  match op, args with
-  | "div", [as, bs] | "rem", [as, bs] =>
-    -- native INT_MIN / -1 traps only in the instantiation whose block is exactly nbits wide (32 or 64)
-    if fam == "fixpnt" then "" else
-    match parseHex as, parseHex bs with
-    | some a, some b => if (n == 32 || n == 64) && a == 2 ^ (n - 1) && b == 2 ^ n - 1 then "blocktype.div.native_maxneg_by_minus1" else ""
-    | _, _ => ""
-  | _, _ => ""
+/-- known-finding classes of C12 (decidable on the inputs): none is left for integer / blockbinary / fixpnt
+    (`blocktype.div.native_maxneg_by_minus1` is repaired: a trap in one instantiation is a violation again) -/
+def blkClass (_fam : String) (_n : Nat) (_op : String) (_args : List String) : String := ""
 
 def blkHandler : Handler := fun lhs rhs => do
   let (fam, rest) ← match lhs with | fam :: rest => pure (fam, rest) | _ => throw "arity"
